@@ -393,7 +393,11 @@ class H2Connection(Protocol, TimeoutMixin):
 
         remainingWindow = self.conn.local_flow_control_window(stream)
         frameData = self._outboundStreamQueues[stream].popleft()
-        maxFrameSize = min(self.conn.max_outbound_frame_size, remainingWindow)
+        # The window is negative after the peer has reduced its initial window
+        # size below what is already in flight.
+        maxFrameSize = max(
+            0, min(self.conn.max_outbound_frame_size, remainingWindow)
+        )
 
         if frameData is _END_STREAM_SENTINEL:
             # There's no error handling here even though this can throw
